@@ -97,8 +97,6 @@ def run(ck):
     for cls in STATES:
         wf = cls != "DensityMatrix"
         for mname, mfn in ent.items():
-            if cls == "PositiveWaveFunction" and mname == "KL/bases":
-                continue
             fname = mname.split("/")[0]
             f = prog.func(M, fname)
             inst = "%s/%s" % (mname, cls)
@@ -112,7 +110,13 @@ def run(ck):
                 paths = paths_of(prog, th, sticky=True, max_paths=80)
                 ck.note_functions(functions_in_paths(paths))
                 rets = [p for p in paths if p.outcome == "return"]
-                ck.check(bool(rets), "C10.R1", inst + ":returns", f.site(), "the metric never returns: %s" % [str(p.value)[:70] for p in paths][:2])
+                ck.check(bool(rets), "C10.R1", inst + ":returns", f.site(), "the metric never returns: %s" % [str(p.value)[:70] for p in paths][:2], key="C10.R1|%s|%s|never-returns" % (fname, cls))
+                # every code path returns a number: a feasible path that ends in an error raised by the language itself (a missing
+                # attribute, an index out of range) is a path on which the metric reports nothing
+                for p in paths:
+                    if p.outcome == "raise" and getattr(p.value, "definite_bug", False) and rets:
+                        ck.violation("C10.R1", inst + ":no path ends in an accidental error [%s]" % _c(p), getattr(p.value, "site", f.site()),
+                                     "on this path the metric does not return: %s" % (str(p.value)[:160],), key="C10.R1|%s|%s|accidental-error" % (fname, cls))
                 for p in rets:
                     r, Zv, s = p.value
                     pn = _c(p)
